@@ -9,4 +9,4 @@ INIT Init
 NEXT Next
 INVARIANT Inv_C07
 INVARIANT Inv_C05
-CHECK_DEADLOCK FALSE
+CHECK_DEADLOCK TRUE
